@@ -64,6 +64,7 @@ struct Sched
   std::atomic<long> yields{0};
 } S;
 static thread_local int tls_id = -1;
+static thread_local bool tls_abort_pending = false; // an abort noticed where throwing is not allowed (unlock may run in a destructor)
 
 static std::string capture_state(bool terminal);
 static int intern_state(const std::string &js, unsigned long long h);
@@ -195,8 +196,15 @@ static void schedule_next()
 }
 static void update_pc(LT &me);
 // the running thread announces its pending operation and hands the baton on
-static void yield_here(LT &me)
+static void yield_here(LT &me, bool may_throw = true)
 {
+  if (tls_abort_pending)
+  {
+    if (!may_throw)
+      return;
+    tls_abort_pending = false;
+    throw abort_run();
+  }
   S.yields++;
   real_ulock lk(S.M);
   update_pc(me);
@@ -204,7 +212,14 @@ static void yield_here(LT &me)
   me.cond.wait(lk, [&]
                { return S.current == me.id || S.aborting; });
   if (S.aborting)
+  {
+    if (!may_throw)
+    {
+      tls_abort_pending = true;
+      return;
+    }
     throw abort_run();
+  }
 }
 static LT &self()
 {
@@ -230,7 +245,18 @@ void wv::mutex::lock()
   yield_here(me);
   holder = me.id;
 }
-void wv::mutex::unlock() noexcept { holder = -1; }
+// releasing a mutex is a scheduling point too: whatever the thread does next, unsynchronised, can be
+// overtaken by a thread that was waiting for the mutex (or by anybody else)
+void wv::mutex::unlock()
+{
+  holder = -1;
+  if (!S.active || tls_id < 0 || S.aborting || std::uncaught_exceptions() > 0)
+    return;
+  LT &me = *S.th[tls_id];
+  me.pend = P_PLAIN;
+  me.tag = "unlocked";
+  yield_here(me, false);
+}
 bool wv::mutex::try_lock()
 {
   if (holder != -1)
@@ -307,6 +333,7 @@ void wv::thread::start(std::function<void()> fn)
     S.th[id]->real = real_thread([id, fn]()
                                  {
       tls_id = id;
+      tls_abort_pending = false;
       LT &me = *S.th[id];
       try
       {
@@ -509,6 +536,9 @@ static void update_pc(LT &me)
     else if (me.pend == P_LOCK)
       pc = (prev == "sp" || prev == "ti") ? "wu0" : (prev == "bu" || prev == "ex1" || prev == "ld1") ? "sr0"
                                                                                                       : "lock?" + prev;
+    else if (me.tag == "unlocked")
+      pc = (prev == "wu1" || prev == "wuw") ? "wu2" : prev == "sr1" ? "sr2"
+                                                                    : "unlocked?" + prev;
     else if (me.pend == P_CVWAKE)
       pc = "wuw";
     else if (me.tag == "prewait")
@@ -535,8 +565,12 @@ static void update_pc(LT &me)
     int i = me.id - 1;
     if (me.pend == P_LOCK)
       pc = prev == "st" ? "g0" : prev == "ge" ? "su0"
-                             : prev == "su1"  ? "wr0"
+                             : prev == "su2"  ? "wr0"
                                               : "lock?" + prev;
+    else if (me.tag == "unlocked")
+      pc = (prev == "g1" || prev == "gw") ? "g2" : prev == "su1"                  ? "su2"
+                                               : (prev == "wr1" || prev == "wrw") ? "wr2"
+                                                                                  : "unlocked?" + prev;
     else if (me.pend == P_CVWAKE)
       pc = prev == "gp" ? "gw" : prev == "wrp" ? "wrw"
                                                : "wait?" + prev;
@@ -644,6 +678,7 @@ static RunResult run_once(const std::vector<int> &prefix)
   S.th[0]->pc = "sp";
   S.th[0]->tag = "begin";
   tls_id = 0;
+  tls_abort_pending = false;
   S.current = 0;
   S.active = true;
   RunResult rr;
@@ -693,15 +728,41 @@ static RunResult run_once(const std::vector<int> &prefix)
 }
 
 #include <signal.h>
+// async-signal-safe: no malloc, no stdio (the crash may have happened inside malloc)
+static char g_crashbuf[1 << 16];
 static void crash_handler(int sig)
 {
-  // the code under test crashed under the schedule executed so far
-  char buf[64];
-  std::string sched;
-  for (auto &st : S.steps)
-    sched += (sched.empty() ? "" : ",") + std::to_string(st.chosen);
-  printf("{\"e\":\"crash\",\"signal\":%d,\"schedule\":\"%s\"}\n", sig, sched.c_str());
-  fflush(stdout);
+  size_t n = 0;
+  auto puts_ = [&](const char *t)
+  { while (*t && n + 1 < sizeof g_crashbuf) g_crashbuf[n++] = *t++; };
+  auto putn = [&](long v)
+  {
+    char tmp[24];
+    int k = 0;
+    bool neg = v < 0;
+    if (neg)
+      v = -v;
+    do
+      tmp[k++] = (char)('0' + v % 10), v /= 10;
+    while (v && k < 22);
+    if (neg)
+      tmp[k++] = '-';
+    while (k && n + 1 < sizeof g_crashbuf)
+      g_crashbuf[n++] = tmp[--k];
+  };
+  puts_("{\"e\":\"crash\",\"signal\":");
+  putn(sig);
+  puts_(",\"schedule\":\"");
+  size_t cnt = S.steps.size();
+  for (size_t i = 0; i < cnt && n + 32 < sizeof g_crashbuf; ++i)
+  {
+    if (i)
+      puts_(",");
+    putn(S.steps[i].chosen);
+  }
+  puts_("\"}\n");
+  ssize_t w = write(1, g_crashbuf, n);
+  (void)w;
   _exit(8);
 }
 static void watchdog()
